@@ -1738,7 +1738,8 @@ async def stream_blewt(ctx, drv, cov, viols, root, r):
     pd = gen_pairing(r, "BLE")
     pd["AccessoryPairingID"] = hkid
     ALPHA = ["key1", "key2", "cfgkey", "up_poll", "up_adv", "down_poll", "down_adv", "same_adv", "hi_poll", "one_poll",
-             "one_adv", "restart"]
+             "one_adv", "restart", "val_event", "val_poll"]
+    VALS = [21.5, 22.0, 19.25, 0.0, 99.9]
     hists = []
     for n in (1, 2):
         hists += [("exhaustive", list(h)) for h in itertools.product(ALPHA, repeat=n)]
@@ -1754,9 +1755,16 @@ async def stream_blewt(ctx, drv, cov, viols, root, r):
         hists.append(("roll-over", pre + ["hi_poll", "one_adv", "restart", "up_poll"]))
         hists.append(("counter-down", pre + ["up_poll", "up_poll", "down_adv", "restart"]))
         hists.append(("counter-down", pre + ["up_adv", "down_poll", "restart", "up_poll", "restart"]))
+    # characteristic values changed in place (event / poll, no re-fetch of the database) between two write-throughs
+    for v in ("val_event", "val_poll"):
+        for w in ("up_poll", "up_adv", "key1", "down_adv", "one_poll"):
+            hists.append(("values-in-place", ["up_poll", v, w, "restart"]))
+            hists.append(("values-in-place", [v, w]))
+            hists.append(("values-in-place", ["key2", v, v, w, "restart", v, "up_adv"]))
     for _ in range(120 if tier == "quick" else 2500):
         hists.append(("random", [r.choice(ALPHA) for _ in range(r.randrange(3, 10))]))
-    stats = dict(histories=0, steps=0, observations=0, key_set_same_config=0, key_set_changed_config=0, state_up=0,
+    stats = dict(value_changes_event=0, value_changes_poll=0, write_throughs_after_value_change=0,
+                 histories=0, steps=0, observations=0, key_set_same_config=0, key_set_changed_config=0, state_up=0,
                  state_down=0, state_same=0, state_rollover=0, restarts=0, initial_with_key=0,
                  exhaustive_up_to=2 if tier == "quick" else 3)
     seen = set()
@@ -1787,8 +1795,20 @@ async def stream_blewt(ctx, drv, cov, viols, root, r):
         db_view = listed_view(dump_accessories(p.accessories))
         trace = [["initial", dict(exp)]]
         problem = None
+
+        def view_with(vals):
+            v = json.loads(json.dumps(db_view))
+            for sv in v[0]["services"]:
+                for ch in sv["characteristics"]:
+                    if ch["iid"] in vals:
+                        ch["value"] = vals[ch["iid"]]
+            return v
+        cur_vals = {}                        # iid -> value set in place since the database was (re)built
+        allowed = [view_with(cur_vals)]      # database states since the last REQUIRED write-through
+        dirty = False
         try:
             for op in h:
+                before_exp = dict(exp)
                 if p.description is None:
                     p._async_description_update(HomeKitAdvertisement.from_cache(pd["AccessoryAddress"], hkid, exp["config_num"], exp["state_num"]))
                 if op in ("key1", "key2"):
@@ -1806,6 +1826,23 @@ async def stream_blewt(ctx, drv, cov, viols, root, r):
                     p.restore_accessories_state(json.loads(json.dumps(BLE_DB)), exp["config_num"], key, exp["state_num"])
                     stats["key_set_changed_config"] += 1
                     trace.append(["config change", exp["config_num"]])
+                elif op in ("val_event", "val_poll"):
+                    v = r.choice([x for x in VALS if x != cur_vals.get(21, 21.5)])
+                    if op == "val_event":
+                        name = r.choice(["Sensor ☀", "Küche", "x"])
+                        p.accessories.process_changes({(1, 21): {"value": v}, (1, 2): {"value": name}})
+                        cur_vals[2] = name
+                        stats["value_changes_event"] += 1
+                    else:
+                        p._get_all_protocol_params = AsyncMock(return_value=None)
+                        p._get_characteristics_while_connected = AsyncMock(return_value={(1, 21): {"value": v}})
+                        async with p._operation_lock:
+                            await p._populate_char_values(False)
+                        stats["value_changes_poll"] += 1
+                    cur_vals[21] = v
+                    dirty = True
+                    trace.append(["values changed in place (" + ("event via process_changes" if op == "val_event" else "poll via _populate_char_values") + ")",
+                                  dict(cur_vals)])
                 elif op == "restart":
                     c, ctl, p = fresh()
                     stats["restarts"] += 1
@@ -1825,8 +1862,27 @@ async def stream_blewt(ctx, drv, cov, viols, root, r):
                     exp["state_num"] = new
                     trace.append([f"state number {old} -> {new}", "notification/poll path" if via == "poll" else "advertisement"])
                 stats["steps"] += 1
+                # bookkeeping: which database states may be on disk now
+                must_write = dict(exp) != before_exp       # config number, state number or key changed: write-through required
+                if op == "cfgkey":
+                    cur_vals = {}                          # the database was rebuilt from BLE_DB
+                if must_write:
+                    if dirty:
+                        stats["write_throughs_after_value_change"] += 1
+                    allowed = [view_with(cur_vals)]
+                    dirty = False
+                else:
+                    allowed.append(view_with(cur_vals))
                 got = observe()
                 stats["observations"] += 1
+                if op == "restart" and got is not None:
+                    # the running pairing now holds what was on disk
+                    for sv in got["db"][0]["services"]:
+                        for ch in sv["characteristics"]:
+                            if ch["iid"] in (2, 21):
+                                cur_vals[ch["iid"]] = ch["value"]
+                    allowed = [view_with(cur_vals)]
+                    dirty = False
                 if got is None:
                     problem = ("presence", "a restart now finds no cached state for the pairing")
                     break
@@ -1837,8 +1893,16 @@ async def stream_blewt(ctx, drv, cov, viols, root, r):
                         break
                 if problem:
                     break
-                if got["db"] != db_view:
-                    problem = ("accessories", "the accessory database restored by a restart differs")
+                if got["db"] not in allowed:
+                    def vals_of(view):
+                        return {ch["iid"]: ch["value"] for sv in view[0]["services"] for ch in sv["characteristics"] if ch["iid"] in (2, 21)}
+                    problem = ("accessories", f"after '{trace[-1][0]}' a restart restores characteristic values {vals_of(got['db'])}, "
+                               f"the pairing held {vals_of(allowed[-1])} when it last had to write through"
+                               if vals_of(got["db"]) != vals_of(allowed[-1]) else "the accessory database restored by a restart differs")
+                    break
+                live_db = listed_view(dump_accessories(p.accessories))
+                if live_db != view_with(cur_vals):
+                    problem = ("live-database", "the running pairing's database differs from what the operations established")
                     break
                 live = dict(config_num=p.config_num, state_num=p.state_num,
                             broadcast_key=p.broadcast_key.hex() if p.broadcast_key is not None else None)
